@@ -141,6 +141,19 @@ chk("C05", "model_checking",
     "TLA+ specs (BuildDecode over X509Time, TbsBuilder) model-checked by TLC; exhaustive spec->impl replay through the real builders/decoders",
     "DESIGN.md §3 C05")
 
+chk("C11", "model_checking",
+    "CaXml.tla defines attribute/PCDATA escaping (Rep, Esc), a conforming reader (Read) and the field table of all 16 message variants "
+    "of RFC 6492/8181/8183 (carrier and admitted characters per field; CarrierSafe). CaXmlEsc.tla is the writer's escaping machine "
+    "(TLC: Incremental, RoundTrip, AttrCoversPcdata for every value up to length 4/5 over an alphabet that contains the specials and "
+    "entity look-alikes); CaXmlMsg.tla is the case machine (variant x list shape x optional fields x focus field x every focus string) "
+    "plus the parser fault plans (34 mutation kinds x 5 positions). Every state is replayed: values through xml::encode::Writer "
+    "(bytes = Esc), messages through the public constructors -> XML -> independent well-formedness scanner -> library parser = equal, "
+    "mutated documents through all six parsers (no panic; accepted values stabilise under write/parse). Random messages are validated "
+    "by Trace_CaXml (every written attribute = Esc(value), well-formed, round trip).",
+    "ASCII without C0 controls, whole-second times, non-empty objects, tags present; canned error texts only.",
+    "TLA+ specs (CaXml, CaXmlEsc, CaXmlMsg) model-checked by TLC; exhaustive spec->impl replay with an independent XML scanner; impl->spec trace validation",
+    "DESIGN.md §3 C11")
+
 chk("C14", "model_checking",
     "Manifest.tla states the RFC 9286 file-name grammar, transcribes validate_file_name and resolves names against a base with "
     "UriAlgebra's join/parent; TLC checks transcription = grammar and that every valid name resolves directly inside the base, for "
